@@ -304,7 +304,7 @@ def run(ctx):
     rnd = ctx.rnd
     core.celpy()
     k = 0
-    xs = [3, 4] if not ctx.thorough else [0, 1, 2, 3, 4, 7, -1, 1000]
+    xs = [0, 3, 4, 7] if not ctx.thorough else [0, 1, 2, 3, 4, 7, -1, 1000, 2**40, -5]
     for (label, node, sites), style, kind, r in itertools.product(PROGRAMS, ("list", "dict"), KINDS, "IC"):
         k += 1
         if not ctx.mine(k):
